@@ -301,7 +301,8 @@ def j2(rep, F, S):
         # every helper field reaches the constructed value
         used = set()
         for n in walk(db["body"]):
-            if n.get("k") == "field" and peel(n["e"]).get("name") == "helper":
+            if n.get("k") == "field" and helper is not None and \
+                    (n.get("bt") or "").replace("&", "").strip().endswith(helper["name"]):
                 used.add(n["name"])
         for k in rk:
             if k not in used:
